@@ -17,6 +17,9 @@ var vFailLo, vFailHi uintptr
 
 //verif:stub syscall.Mprotect
 func vStubMprotect(b []byte, prot int) error {
+	// other goroutines execute code on the pages being written (a steadily mocked function,
+	// its callback, the caller itself): no protection change may take execute away
+	verifAssert(prot&syscall.PROT_EXEC != 0, "C11.mprotect.page-stays-executable")
 	a := verifSliceAddr(b)
 	if vFailHi != 0 && a < vFailHi && a+uintptr(len(b)) > vFailLo {
 		return syscall.EACCES
@@ -28,6 +31,8 @@ func vStubMprotect(b []byte, prot int) error {
 //
 //verif:stub syscall.Syscall
 func vStubSyscall(trap, a1, a2, a3 uintptr) (uintptr, uintptr, syscall.Errno) {
+	// (the fallback, reached only after the primary mprotect was refused, is the macOS
+	// work-around that cannot keep execute; it is outside the claim, as in C14)
 	if trap == syscall.SYS_MPROTECT && vFailHi != 0 && a1 < vFailHi && a1+a2 > vFailLo {
 		return 0, 0, syscall.EACCES
 	}
